@@ -95,7 +95,7 @@ TEXT = {
         "technique": "Verus contract on the real chronobox_time + hardware-clock-model lemmas; bounded Kani check of the extracted row-split expression",
         "design_ref": "DESIGN.md §4 C20",
         "level_text": "chronobox_time is proved to return a time exactly when both markers are present, consecutive, of alternating top bit and on the right side of the timestamp, and then timestamp + ((counter+1)/2)*2^24; lemmas show that for the hardware model this is the true tick count (edge bit cleared) and that a timestamp on the wrong side of a marker never gets a time.",
-        "level_note": _COMMON_NOTE + " The row split is checked by Kani on chunks of <=3 entries (bounded); c20_csv runs the real binary on hardware-model streams of 9 half wraps cut into irregular banks over two files (bounded). NOT decided: the fail-without-CSV clauses, multiple boards. The f64 conversion of the tick count is opaque in the proof.",
+        "level_note": _COMMON_NOTE + " The row split is checked by Kani on chunks of <=3 entries (element by element, bounded) and, as a loop-free structural statement (rows = the piece without its trailing marker: same start, length n or n-1), on pieces of up to 64 entries, where the only bound is the capacity of the symbolic array; c20_csv runs the real binary on hardware-model streams of 9 half wraps cut into irregular banks over two files (bounded). NOT decided: the fail-without-CSV clauses, multiple boards. The f64 conversion of the tick count is opaque in the proof.",
     },
     "C06": {
         "technique": "Verus postcondition accept <=> trg_ok(bytes) + complete Kani proof over [u8;80]",
